@@ -4,11 +4,23 @@ import Model.Numscript.Ast
 namespace Num
 
 def isWordChar (c : Char) : Bool := c.isAlphanum || c == '_'
+
+/-- split a character list at every occurrence of `c` (`strings.Split` for a one-character separator): always
+at least one piece; written over `List Char` so that theorems can reason about it (C09) -/
+def splitChars (c : Char) : List Char → List (List Char)
+  | [] => [[]]
+  | x :: xs =>
+    if x = c then [] :: splitChars c xs
+    else match splitChars c xs with
+      | [] => [[x]]
+      | h :: t => (x :: h) :: t
+
+def splitOnC (s : String) (c : Char) : List String := (splitChars c s.toList).map String.ofList
 def isDigitStr (s : String) : Bool := !s.isEmpty && s.all Char.isDigit
 
 /-- `^[a-zA-Z0-9_]+(?:-[a-zA-Z0-9_]+)*(:[a-zA-Z0-9_]+(?:-[a-zA-Z0-9_]+)*)*$` -/
 def validAccount (s : String) : Bool :=
-  (s.splitOn ":").all fun seg => (seg.splitOn "-").all fun w => !w.isEmpty && w.all isWordChar
+  (splitOnC s ':').all fun seg => (splitOnC seg '-').all fun w => !w.isEmpty && w.all isWordChar
 
 /-- `^[A-Z][A-Z0-9]{0,16}(\/\d{1,6})?$` -/
 def validAsset (s : String) : Bool :=
@@ -16,7 +28,7 @@ def validAsset (s : String) : Bool :=
     match n.toList with
     | [] => false
     | c :: cs => c.isUpper && cs.length ≤ 16 && cs.all (fun d => d.isUpper || d.isDigit)
-  match s.splitOn "/" with
+  match splitOnC s '/' with
   | [n] => nameOk n
   | [n, d] => nameOk n && isDigitStr d && d.length ≤ 6
   | _ => false
@@ -58,7 +70,7 @@ def parseValue (ty : Ty) (s : String) : Option Val :=
   | .string => some (.str s)
   | .portion => (parsePortion s).map .portion
   | .monetary =>
-    match s.splitOn " " with
+    match splitOnC s ' ' with
     | a :: rest@(_ :: _) =>
       match parseInt10 (" ".intercalate rest) with
       | some n => if validAsset a && n ≥ 0 then some (.mon a n) else none
